@@ -101,7 +101,7 @@ impl Prop for C10 {
     fn rule(&self) -> String {
         "for every retrying request unit (valve info / players / rules incl. the challenge sub-step, FFOW, GameSpy 1 query and query_vars, GameSpy 2, GameSpy 3 and JC2-MP \
          handshake and data step, Quake 1/2/3, Unreal 2 info / rules / players, Minecraft Java, Bedrock and the three legacy variants, Mindustry) x retries r in 0..=3 x ALL \
-         per-attempt outcome vectors in {valid, silent, send fails, malformed}^(r+2), over several server states: a fault-injecting wrapper around the valid reference \
+         per-attempt outcome vectors in {valid, silent, send fails, malformed, partial (only the first datagram of a multi-datagram reply arrives)}^(r+2), over several server states: a fault-injecting wrapper around the valid reference \
          server applies the vector to the attempts of that unit. Oracle from the transport log and the wrapper's record: attempts == min(index of the first non-timeout \
          outcome + 1, r+1); every re-sent first request is byte-identical; first valid attempt => result equals the fault-free result; malformed (a fixed hand-written reply or, for the single-reply protocols without a challenge step, the valid reply cut to half / minus one byte / five bytes / one byte) => an error that is not \
          receive/send class (or, for a cut reply, success) and no further attempt; all r+1 timeouts => PacketReceive / PacketSend. non-trivial = the vector contains a fault that took effect; distinct = \
@@ -171,7 +171,7 @@ impl Prop for C10 {
     }
 
     fn exhaustive_subspaces(&self, tier: Tier) -> Vec<String> {
-        vec![format!("all outcome vectors {{valid, silent, send-fails, malformed}}^(r+2) for r in 0..=3, for each of 18 entry points x their units x fault steps x {} server states (the realisation of 'malformed' rotates over the fixed reply and four cuts of the valid reply)", tier.pick(5, 30))]
+        vec![format!("all outcome vectors {{valid, silent, send-fails, malformed, partial}}^(r+2) for r in 0..=3, for each of 18 entry points x their units x fault steps x {} server states (the realisation of 'malformed' rotates over the fixed reply and four cuts of the valid reply)", tier.pick(5, 30))]
     }
 
     fn run(&self, case: &Case) -> Outcome {
@@ -202,6 +202,7 @@ impl Prop for C10 {
         let eff: Vec<Fault> = flog.attempts.iter().map(|(f, hit)| if *hit { *f } else { Fault::Valid }).collect();
         o.nontrivial = eff.iter().any(|f| *f != Fault::Valid);
         if eff.iter().any(|f| *f == Fault::Malformed) { o.label("malformed-hit"); }
+        if flog.partial_hits > 0 { o.label("partial-reply-hit"); }
         if eff.iter().filter(|f| f.timeout_class()).count() > r { o.label("all-attempts-time-out"); }
         // planned effective vector: what each attempt WOULD see (attempts beyond those made are unknown; use the plan)
         let planned = |i: usize| -> Fault { eff.get(i).copied().unwrap_or_else(|| case.plan.get(i).copied().unwrap_or(Fault::Valid)) };
